@@ -1,6 +1,7 @@
 package vc
 
 import (
+	"go/constant"
 	"fmt"
 	"go/types"
 	"strings"
@@ -73,6 +74,36 @@ func init() {
 		f := e.D.UF("str_index", []string{"Str", "Str"}, "Int")
 		e.D.Axiom("str_index", "(forall ((s Str) (p Str)) (! (and (>= (str_index s p) (- 1)) (<= (+ (str_index s p) (slen p)) (+ (slen s) (ite (= (str_index s p) (- 1)) (+ 1 (slen p)) 0)))) :pattern ((str_index s p))))")
 		e.setVal(res, "Int", sx(f, a[0], a[1]))
+		return true
+	}}
+	L["strings.IndexByte"] = LibModel{Doc: "least index of the byte, -1 if absent", Fn: func(e *FuncEnc, in ssa.Instruction, av []ssa.Value, a []string, rts []types.Type, res ssa.Value) bool {
+		e.setVal(res, "Int", sx("sidx", a[0], a[1]))
+		return true
+	}}
+	L["strings.IndexRune"] = LibModel{Doc: "least index of the rune, -1 if absent (constant ASCII runes exactly; others bounded only)", Fn: func(e *FuncEnc, in ssa.Instruction, av []ssa.Value, a []string, rts []types.Type, res ssa.Value) bool {
+		if c, ok := av[1].(*ssa.Const); ok && c.Value != nil {
+			if n, exact := constant.Int64Val(c.Value); exact && n >= 0 && n < 128 {
+				e.setVal(res, "Int", sx("sidx", a[0], itoa(n)))
+				return true
+			}
+		}
+		f := e.D.UF("str_indexrune", []string{"Str", "Int"}, "Int")
+		e.D.Axiom("str_indexrune", "(forall ((s Str) (c Int)) (! (and (>= (str_indexrune s c) (- 1)) (< (str_indexrune s c) (slen s))) :pattern ((str_indexrune s c))))")
+		e.setVal(res, "Int", sx(f, a[0], a[1]))
+		return true
+	}}
+	L["strings.Cut"] = LibModel{Doc: "before/after the first occurrence of a one-byte literal separator (others: deterministic only)", Fn: func(e *FuncEnc, in ssa.Instruction, av []ssa.Value, a []string, rts []types.Type, res ssa.Value) bool {
+		lit, ok := constString(av[1])
+		if !ok || len(lit) != 1 || res == nil {
+			return false
+		}
+		idx := sx("sidx", a[0], itoa(int64(lit[0])))
+		found := sx(">=", idx, "0")
+		e.tuple[res] = []string{
+			e.define(mangle(res.Name())+"_0", "Str", ite(found, sx("ssub", a[0], "0", idx), a[0])),
+			e.define(mangle(res.Name())+"_1", "Str", ite(found, sx("ssub", a[0], sx("+", idx, "1"), sx("slen", a[0])), "str_empty")),
+			e.define(mangle(res.Name())+"_2", "Bool", found),
+		}
 		return true
 	}}
 	L["strings.TrimPrefix"] = LibModel{Doc: "s[len(p):] if HasPrefix(s,p) else s", Fn: func(e *FuncEnc, in ssa.Instruction, av []ssa.Value, a []string, rts []types.Type, res ssa.Value) bool {
@@ -149,7 +180,7 @@ func init() {
 		return true
 	}}
 	L["net/http.CanonicalHeaderKey"] = pureUF("canonical MIME header key: a deterministic function of its argument")
-	for _, n := range []string{"strings.ReplaceAll", "strings.Contains", "strings.ToLower", "strings.ToUpper", "strings.Title", "strings.Join", "strings.TrimSpace", "strings.Repeat", "strings.Count", "strings.EqualFold", "strings.LastIndex", "strings.ContainsRune", "strings.IndexByte", "strings.Trim", "strings.TrimLeft", "strings.TrimRight", "strings.Fields",
+	for _, n := range []string{"strings.ReplaceAll", "strings.Contains", "strings.ToLower", "strings.ToUpper", "strings.Title", "strings.Join", "strings.TrimSpace", "strings.Repeat", "strings.Count", "strings.EqualFold", "strings.LastIndex", "strings.ContainsRune", "strings.Trim", "strings.TrimLeft", "strings.TrimRight", "strings.Fields",
 		"path.Dir", "path.Base", "path.Ext", "path/filepath.Join", "path/filepath.Base", "path/filepath.Ext", "path/filepath.Dir",
 		"unicode.IsLetter", "unicode.IsUpper", "unicode.IsDigit", "unicode.IsLower", "unicode.ToUpper", "unicode.ToLower",
 		"strconv.Itoa", "strconv.Quote", "strconv.FormatInt", "strconv.FormatFloat", "strconv.FormatBool", "strconv.FormatUint",
